@@ -40,8 +40,8 @@ func New() *Reg {
 }
 
 func (r *Reg) Add(string, strfmt.Format, strfmt.Validator) bool { return false }
-func (r *Reg) DelByName(string) bool                             { return false }
-func (r *Reg) GetType(string) (reflect.Type, bool)               { return nil, false }
+func (r *Reg) DelByName(string) bool                            { return false }
+func (r *Reg) GetType(string) (reflect.Type, bool)              { return nil, false }
 func (r *Reg) ContainsName(name string) bool {
 	if _, ok := r.custom[name]; ok {
 		return true
